@@ -482,11 +482,16 @@ pub fn strftime(ts: time::OffsetDateTime, fmt: &str) -> Result<String, DateForma
                             width = pad_width,
                         );
                     } else {
+                        // The sign is the one of the whole offset: -00:30 has zero
+                        // whole hours and is still negative
+                        let hours = offset.whole_hours().unsigned_abs();
+                        let digits = if hours >= 10 { 2 } else { 1 };
                         w!(
                             output,
-                            "{: >+width$}",
-                            offset.whole_hours(),
-                            width = pad_width
+                            "{: >width$}{}",
+                            if offset.is_negative() { '-' } else { '+' },
+                            hours,
+                            width = pad_width.saturating_sub(digits),
                         );
                     }
 
